@@ -1,0 +1,24 @@
+//go:build verif
+
+package memory
+
+// Contracts for gocv (see /verif/DESIGN.md). Comment-only file.
+
+//@ package memory
+//@ import ocispec "github.com/opencontainers/image-spec/specs-go/v1"
+//@ import descriptor "oras.land/oras-go/v2/internal/descriptor"
+//@ import graph "oras.land/oras-go/v2/internal/graph"
+//@
+//@ pure memStoreRI(s *Store) bool = s != nil && s.graph != nil && alive(s.graph) && graphRI(s.graph) && s.storage != nil && s.resolver != nil
+//@
+//@ func (*Store).Push
+//@   requires [ri] memStoreRI(s)
+//@   ensures [C07:indexed-after-successful-push] result == nil ==> K(expected) in s.graph.nodes
+//@   ensures [C07:ri] memStoreRI(s) && s.graph == old(s.graph)
+//@
+//@ func (*Store).Predecessors
+//@   requires [ri] memStoreRI(s)
+//@   ensures [C07:exact-members] forall i int :: 0 <= i && i < len(result0) ==> inPreds(s.graph, K(node), predKey(i)) && result0[i] == s.graph.nodes[predKey(i)]
+//@   ensures [C07:exact-once] forall i, j int :: 0 <= i && i < j && j < len(result0) ==> predKey(i) != predKey(j)
+//@   ensures [C07:exact-complete] forall k descriptor.Descriptor :: inPreds(s.graph, K(node), k) ==> (exists i int :: 0 <= i && i < len(result0) && predKey(i) == k)
+//@   ensures [C07:no-error] result1 == nil
